@@ -113,6 +113,16 @@ def _job(args):
                                f"a line is {max(lw)} cells wide with {w} available (structural minimum {sm})",
                                "progressbar-no-newline" if (not oko and dom == "open:f23") else None))
             continue
+        if 1 <= w < sm and dom == "in" and not out.startswith("err:"):
+            # BELOW the structural minimum (added in the fourth deepening round, with `collapseWidths_low` / `tableConsole_decomp_any`):
+            # `render_fits_any` — inside `Dom` no line is wider than max(w, smin) = smin.  The oracle is the Python-side structural
+            # minimum and rich's own output; a table / Columns offered less than one cell per column is judged here.
+            lwb = L.line_widths(out)
+            okb = all(x <= sm for x in lwb)
+            note("below-minimum-evaluated")
+            checks.append((okb, "Console.render below the structural minimum", (spec, cwidth, opts, w) if not okb else None,
+                           f"a line is {max(lwb) if lwb else 0} cells wide with {w} available: wider than the structural minimum {sm}",
+                           classify(spec, dom) if not okb else None))
         if w >= sm and dom != "out":
             if out.startswith("err:"):
                 checks.append((False, "Console.render", (spec, cwidth, opts, w), f"rendering raised {out[4:]}", None))
@@ -305,7 +315,7 @@ MANIFEST = {
     "number of columns, ratio columns included — use the width bound of `_calculate_column_widths` for columns free to wrap, or C07's "
     "`width_bound_general` for arbitrary columns within the budget (`table_general_bound`).  Every exclusion "
     "of the domain `Dom` carries a machine-checked witness that the bound fails there (`excluded_*`, `known_progressbar_in_group_overflows`, "
-    "`old_ratio_zero_column_overflows`) or is marked NOT DISCHARGED.  Tie: ~43k (quick) / ~600k (thorough) renderings of corner trees and "
+    "`old_ratio_zero_column_overflows`) or is marked NOT DISCHARGED (one left: Columns(width>=1)).  Tie: ~43k (quick) / ~600k (thorough) renderings of corner trees and "
     "seeded random trees (depth <= 4, all options, ASCII/CJK/emoji/combining/zero-width content, newlines, tabs, str renderables with markup, "
     "styled titles) compared character for character with real Console.render (not Console.print), widths smin-2..smin+12 densely and up to "
     "200, console widths 12..200, ASCII-only / legacy-Windows / colour consoles, objects re-rendered to expose kept state; smin computed "
@@ -319,11 +329,17 @@ MANIFEST = {
     "arbitrary columns (width / max_width / no_wrap) within C07's budget `tableBudget`, with the exact bound `table_general_bound` "
     "(available width + min_width floors) when a min_width binds; panels with ANY title (rendered as a Text at the panel's width); rules "
     "under every options incl. overflow='ignore'.  Each exclusion has a machine-checked witness (`excluded_*`).  `render_fits_any` bounds every line by max(W, smin) at EVERY width, so "
-    "Constrain/Align put no condition on the width they hand down.  STILL NOT DISCHARGED (no counterexample: evaluated directly in every run "
-    "under its own site name, plus a brute-force search over 40k Columns(width>=1) and 4k below-minimum tables on real rich): a table with "
-    "free columns, or Columns, OFFERED less than one cell per column (only reachable inside a Constrain/Align narrower than the child's "
-    "structural minimum, or with Table(width) below one cell per column) — needs `_calculate_column_widths` of free columns below one cell "
-    "each; and Columns(width>=1) — needs the last-resort ratio_reduce path of fixed-width columns.  Outside the model (driver answers `unmodelled`; 0 requests on the code in /repo as it is now): a "
+    "Constrain/Align put no condition on the width they hand down.  DISCHARGED in the fourth deepening round (was NOT DISCHARGED): a table with "
+    "free columns, or Columns, OFFERED less than one cell per column (inside a Constrain/Align narrower than the child's structural minimum, "
+    "Table(width) below its borders plus one cell per column, any zero / negative budget) — `collapse_below_one_cell_per_column` (the collapse "
+    "loop levels every column to 0 or 1: invariant 'all >= 1 or all in {0,1}', unbounded induction over the while loop and over ratio_reduce), "
+    "`column_widths_below_one_cell_per_column` (the re-measure hands every column exactly one cell, the padding block adds nothing, every flag "
+    "variant), `free_table_below_one_cell_per_column` (no line wider than max(width laid out for, borders + one cell per column)), witness "
+    "`below_minimum_table_is_borders_plus_columns` (11-cell lines in all three positions, confirmed on real rich); the two conditions are removed "
+    "from `Dom` (table: no room condition; Columns: no 'one cell per item').  New direct evaluation: for every tree inside the Python domain "
+    "rendered BELOW its structural minimum (~4.7k renderings per quick run) no line of rich's own output is wider than the structural minimum "
+    "(`render_fits_any`).  STILL NOT DISCHARGED (no counterexample: evaluated directly in every run under its own site name, brute-forced over "
+    "40k cases on real rich): Columns(width>=1) — needs the last-resort ratio_reduce path of fixed-width columns.  Outside the model (driver answers `unmodelled`; 0 requests on the code in /repo as it is now): a "
     "__rich__ that returns another __rich__ object, a raising expand_tabs; styles are not modelled (a str is modelled as the Text render_str "
     "makes of it; rule titles are one-line simple texts; the spans of a styled panel/rule title are not modelled — they only matter when an over-long line is cropped exactly at a zero-width character, seen once in 1.7M cases).  `Text.Inv` of the wrapped-and-joined text is checked at run time by the model; "
     "the panel title's end/no_wrap/overflow fields are re-asserted by a record update in the model.  smin reads Columns as one column per "
